@@ -111,7 +111,9 @@ void DataSet::getData(T &value, const NDSize &offset) const
 
     NDSize count = hydra.shape();
     if (! count) {
-        count = NDSize(offset.size(), 1);
+        // a scalar value is exactly one element, also for an empty offset: an empty count
+        // would mean "everything" (a DataView transfers its whole window)
+        count = NDSize(offset ? offset.size() : dataExtent().size(), 1);
     }
     getData(dtype, hydra.data(), count, offset);
 }
@@ -124,6 +126,10 @@ void DataSet::setData(const T &value, const NDSize &offset)
 
     DataType dtype = hydra.element_data_type();
     NDSize shape = hydra.shape();
+    if (! shape) {
+        // a scalar value is exactly one element (see getData above)
+        shape = NDSize(offset ? offset.size() : dataExtent().size(), 1);
+    }
 
     setData(dtype, hydra.data(), shape, offset);
 }
